@@ -126,6 +126,13 @@ func RunC17(s *sim.Sim, res *runner.Result) {
 			res.Trouble = err.Error()
 			return
 		}
+		// a second version of the root with dependencies of its own: moving the
+		// package to it deactivates (and later deletes) the first revision
+		spec2 := Spec{MetaKinds: []string{"Configuration"}, MetaName: fmt.Sprintf("root%d", i), Form: "annotated", Deps: drawDeps(-1, true)}
+		if err := w.Publish(fmt.Sprintf("acme/root%d", i), "v1.1.0", spec2); err != nil {
+			res.Trouble = err.Error()
+			return
+		}
 		c.roots = append(c.roots, fmt.Sprintf("root%d", i))
 	}
 	chaos := 60 + t.Next(240)
@@ -180,6 +187,7 @@ func RunC17(s *sim.Sim, res *runner.Result) {
 			i, rn := i, rn
 			if w.Store.Peek(simapi.ObjKey{Group: PkgGK["Configuration"].Group, Kind: "Configuration", Name: rn}) != nil {
 				acts = append(acts, sim.Action{Key: "user deletes package " + rn, Weight: 1, Run: func() { c.deleteRoot(i, rn) }})
+				acts = append(acts, sim.Action{Key: "user moves package " + rn + " to its other version", Weight: 2, Run: func() { c.switchRoot(i, rn) }})
 			}
 		}
 		for _, k := range w.Store.GCCandidates() {
@@ -213,6 +221,24 @@ func (c *c17) deleteRoot(i int, rn string) {
 	u.SetName(rn)
 	if c.w.Direct.Delete(context.Background(), u) == nil {
 		c.w.S.Probe("package-deleted")
+	}
+}
+
+func (c *c17) switchRoot(i int, rn string) {
+	ctx := context.Background()
+	u := &unstructured.Unstructured{}
+	u.SetGroupVersionKind(PkgGK["Configuration"].WithVersion("v1"))
+	if err := c.w.Direct.Get(ctx, types.NamespacedName{Name: rn}, u); err != nil {
+		return
+	}
+	cur, _, _ := unstructured.NestedString(u.Object, "spec", "package")
+	next := fmt.Sprintf("%s/acme/root%d:v1.1.0", Registry, i)
+	if strings.HasSuffix(cur, ":v1.1.0") {
+		next = fmt.Sprintf("%s/acme/root%d:v1.0.0", Registry, i)
+	}
+	_ = unstructured.SetNestedField(u.Object, next, "spec", "package")
+	if c.w.Direct.Update(ctx, u) == nil {
+		c.w.S.Probe("root-package-moved-to-other-version")
 	}
 }
 
